@@ -1,0 +1,23 @@
+// Copyright 2025 Versity Software
+// This file is licensed under the Apache License, Version 2.0
+// (the "License"); you may not use this file except in compliance
+// with the License.  You may obtain a copy of the License at
+//
+//   http://www.apache.org/licenses/LICENSE-2.0
+//
+// Unless required by applicable law or agreed to in writing,
+// software distributed under the License is distributed on an
+// "AS IS" BASIS, WITHOUT WARRANTIES OR CONDITIONS OF ANY
+// KIND, either express or implied.  See the License for the
+// specific language governing permissions and limitations
+// under the License.
+
+//go:build !verif
+
+// Package verifhook marks the steps of multi-step storage updates for
+// verification harnesses. Without the "verif" build tag every hook is an
+// empty function.
+package verifhook
+
+// At marks a step; it does nothing in regular builds.
+func At(point string, args ...string) {}
